@@ -1205,6 +1205,10 @@ where
             IOTask::Reset { done } => {
                 let result = this.log_store.reset().await;
                 *pending_max = 0; // disk wiped — pending page-cache watermark must be zeroed
+                // The caller zeroed durable_index before sending Reset, but this task may still have
+                // been advancing it for entries written before the reset; zero it again here, where no
+                // write can be in flight, so entries appended after the reset are not skipped.
+                this.durable_index.store(0, Ordering::Release);
                 let _ = done.send(result);
                 false
             }
